@@ -164,6 +164,8 @@ type EntryResult struct {
 	Wall         time.Duration
 	Exhaustive   bool
 	Nontrivial   int
+	SolverDecided int
+	Transitions  int
 	MaxUnwind    int
 	Unknowns     int
 	Inconclusive []string
@@ -297,8 +299,12 @@ func (e *Engine) RunEntry(cfg *EntryCfg, deadline time.Time) (*EntryResult, erro
 				}
 			}
 			if nontriv && pr.End != endInfeasible {
+				res.SolverDecided++
+			}
+			if len(pr.Asserts) > 0 && pr.End != endInfeasible && (nontriv || len(pr.Decisions) > 0) {
 				res.Nontrivial++
 			}
+			res.Transitions += len(pr.Decisions)
 			for k, v := range pr.ForkSites {
 				if res.ForkSites == nil {
 					res.ForkSites = map[string]int{}
